@@ -64,7 +64,10 @@ def gen_case(rng):
     rc = [t for t in tasks if t["kind"] == "run_command"]
     if rc and rng.random() < 0.15:
         blocker = {"task": rng.choice(rc)["id"], "kind": rng.choice(["file", "dangling-symlink"])}
-    return {"tasks": gen.dump(tasks), "scripts": scripts, "history": hist, "outer_env": outer_env, "blocker": blocker, "hostile": realrun.hostile_choice(rng)}
+    hostile = realrun.hostile_choice(rng)
+    if rng.random() < 0.06:
+        hostile["colon_root"] = True
+    return {"tasks": gen.dump(tasks), "scripts": scripts, "history": hist, "outer_env": outer_env, "blocker": blocker, "hostile": hostile}
 
 
 def same_name_family(rng):
@@ -209,6 +212,18 @@ def eval_case(case):
                     else:
                         unknown_deps.append(d)
                 got_deps = env.get("COND_DEPS")
+                colon_root = ":" in pr.root
+                if colon_root and not unknown_deps:
+                    # the variable itself must still be the declared directories joined by ':'; splitting it is ambiguous
+                    bump("c07_deps_checks")
+                    bump("c07_deps_checks_with_separator_in_project_path")
+                    if got_deps is None or got_deps != ":".join(want_deps):
+                        out["violations"].append({"key": "C07:wrong-COND_DEPS", "msg": "%s got COND_DEPS=%r, expected the join of %s" % (tid, got_deps, want_deps), "witness": W})
+                        continue
+                    if tid in libs and want_deps and "error" not in libs[tid] and libs[tid]["get_deps_paths"] != want_deps:
+                        out["violations"].append({"key": "C07:separator-in-project-path-makes-COND_DEPS-ambiguous", "msg": "%s: the project path contains ':' (%s); COND_DEPS=%r names %d directories but get_deps_paths() returns %d fragments %r" % (
+                            tid, pr.root, got_deps, len(want_deps), len(libs[tid]["get_deps_paths"]), libs[tid]["get_deps_paths"][:4]), "witness": W})
+                    continue
                 if unknown_deps and not all(e.get("deps_isdir", [])):
                     out["violations"].append({"key": "C07:COND_DEPS-names-missing-directory", "msg": "%s got COND_DEPS=%r with an entry that is not an existing directory (%s); dependency %s neither ran in this invocation nor had a version before it" % (tid, got_deps, e.get("deps_isdir"), unknown_deps), "witness": W})
                     continue
